@@ -163,6 +163,80 @@ def classify(body):
     return "positional"
 
 
+_DISPATCH = {}
+_ARM8 = {}
+
+
+def _mirror(a, b):
+    """Are a and b the same projection, a of `self` and b of `other` (or the reverse)?  Returns the projection's description."""
+    a, b = peel(a), peel(b)
+    if a.get("k") != b.get("k"):
+        return None
+    k = a.get("k")
+    if k == "Path":
+        return "" if {a.get("name"), b.get("name")} == {"self", "other"} else None
+    if k == "Field":
+        if a.get("f") != b.get("f"):
+            return None
+        r = _mirror(a["e"], b["e"])
+        return None if r is None else r + "." + a["f"]
+    if k == "MethodCall" and not a.get("args") and not b.get("args"):
+        if a.get("name") != b.get("name"):
+            return None
+        r = _mirror(a["recv"], b["recv"])
+        return None if r is None else r + "." + a["name"] + "()"
+    if k in ("AddrOf", "Unary") and isinstance(a.get("e"), dict) and isinstance(b.get("e"), dict):
+        return _mirror(a["e"], b["e"])
+    return None
+
+
+def early_exits(fn, dispatch):
+    """[(Ret node, innermost enclosing `if` condition or None, in-then?)] for every `return` of fn outside the dispatch match."""
+    out = []
+
+    def go(n, cond):
+        if n is dispatch:
+            return
+        if isinstance(n, dict):
+            if n.get("k") == "Ret":
+                out.append((n, cond))
+            if n.get("k") == "If":
+                go(n.get("cond"), cond)
+                go(n.get("then"), (n["cond"], True))
+                go(n.get("else"), (n["cond"], False))
+                return
+            for key, v in n.items():
+                if key != "sp":
+                    go(v, cond)
+        elif isinstance(n, list):
+            for v in n:
+                go(v, cond)
+
+    go(fn.hir, None)
+    return out
+
+
+def _differs(cond):
+    """cond is a disjunction of `p(self) != p(other)` for projections that equal keys share; returns their names or None."""
+    c = peel(cond)
+    if c.get("k") == "Binary" and c.get("op") == "Or":
+        a, b = _differs(c["a"]), _differs(c["b"])
+        return None if a is None or b is None else a + b
+    if c.get("k") == "Unary" and c.get("op") in ("Not", "!"):
+        e = peel(c.get("e") or c.get("a"))
+        if e.get("k") == "Binary" and e.get("op") == "Eq":
+            r = _mirror(e["a"], e["b"])
+            return [r] if r is not None else None
+        return None
+    if c.get("k") == "Binary" and c.get("op") == "Ne":
+        r = _mirror(c["a"], c["b"])
+        return [r] if r is not None else None
+    if c.get("k") == "MethodCall" and c.get("name") == "ne" and len(c.get("args") or []) == 1:
+        r = _mirror(c["recv"], c["args"][0])
+        return [r] if r is not None else None
+    return None
+
+
 def forms_of(fn):
     """{class-name: form} from the `match labels.len()` of fn (None if not recognised)."""
     ms = []
@@ -203,6 +277,7 @@ def forms_of(fn):
                     ms.append(n)
     if len(ms) != 1:
         return None, f"expected one `match labels.len()`, found {len(ms)}"
+    _DISPATCH[fn.path] = ms[0]
     out = {}
     for cname, n in CLASSES.items():
         # all lengths of the class must take the same arm
@@ -221,7 +296,10 @@ def forms_of(fn):
         if len(arms) != 1 or None in arms:
             out[cname] = "split-class"
             continue
-        out[cname] = classify(ms[0]["arms"][arms.pop()]["body"])
+        arm = ms[0]["arms"][arms.pop()]
+        if cname == "8+":
+            _ARM8[fn.path] = arm
+        out[cname] = classify(arm["body"])
     return out, ""
 
 
@@ -272,6 +350,32 @@ def run(ctx):
             else:
                 d = f"all use `{got['eq']}`, which is not a canonical form for this class (label order / representation would matter)"
             chk.ob("C03.a", f"{KEY} [canonical form class {cname}]", ok, d, cmpf.loc() if cmpf else "")
+    # the unbounded class: positions are never squeezed through a type narrower than the label count
+    NARROW = {"u8", "u16", "u32", "i8", "i16", "i32"}
+    for nm, f in (("hash", hasher), ("eq", eqf), ("cmp", cmpf)):
+        if f is None or f.path not in _ARM8:
+            continue
+        casts = [n for n in dwalk(_ARM8[f.path]["body"]) if n.get("k") == "Cast" and n.get("ty") in NARROW and (n.get("e") or {}).get("ty") in ("usize", "u64", "u128")]
+        chk.ob("C03.a", f"{f.path} [class 8+ positions at full width]", not casts, "no label count / position of the unbounded class is narrowed" if not casts else f"the arm taken by every count >= 8 casts a {casts[0]['e'].get('ty')} to {casts[0].get('ty')}: positions wrap from {2 ** {'u8': 8, 'i8': 7, 'u16': 16, 'i16': 15}.get(casts[0].get('ty'), 32)} labels on, so the canonical form is no longer the stable sort of all labels", f"{f.j.get('file', '')}:{(casts[0] if casts else {}).get('ln', '')}", nontrivial=False)
+    # early exits of == ahead of the per-class comparison: `false` only where a projection that equal keys share differs
+    # (name, label count, hash), `true` only for one and the same key; anything else decides equality outside the canonical form
+    if eqf is not None and eqf.path in _DISPATCH:
+        shared = {"." + KF["name"], "." + KF["labels"] + ".len()", ".get_hash()", "." + KF["labels"] + ".is_empty()"}
+        for ret, cond in early_exits(eqf, _DISPATCH[eqf.path]):
+            val = peel(ret.get("e") or {})
+            where = f"{eqf.path} [early exit]"
+            loc = f"{eqf.j.get('file', '')}:{ret.get('ln')}"
+            if val.get("k") == "Lit" and val.get("bool") is False and cond is not None and cond[1]:
+                d = _differs(cond[0])
+                ok = d is not None and set(d) <= shared
+                chk.ob("C03.a", where, ok, f"false where {' / '.join(d)} differ" if ok else "returns false under a condition that does not imply the keys differ (not a comparison of name, label count or hash of the two sides): a key can be != itself or its equal", loc)
+            elif val.get("k") == "Lit" and val.get("bool") is True and cond is not None and cond[1]:
+                c = peel(cond[0])
+                ok = c.get("k") == "Call" and (call_name(c) or "").endswith("ptr::eq") and all(peel(a).get("k") == "Path" and peel(a).get("name") in ("self", "other") for a in (c.get("args") or [])) and len(c.get("args") or []) == 2
+                chk.ob("C03.a", where, ok, "true for one and the same key" if ok else "returns true ahead of the canonical comparison under a condition other than `the two are the same key`: unequal keys (different label count / labels) can compare equal while their hashes and cmp differ", loc)
+            else:
+                chk.ob("C03.a", where, False, "== returns a computed result ahead of the per-class canonical comparison: label order / count can matter for this exit while hash and cmp ignore it", loc)
+
     # == and cmp must consult the key names and the label counts besides the labels themselves
     def mentions_field(sym, role):
         return f"'{KF[role]}'" in repr(sym)
